@@ -371,6 +371,24 @@ func siblingScenario(rng *rand.Rand) *scenario {
 	return sc
 }
 
+// limitScenario: one protected file of exactly 32768 slices (the format's limit for a recovery set; 32768 checksum
+// pairs in one packet), one slice damaged.
+func limitScenario(rng *rand.Rand) *scenario {
+	sc := &scenario{prot: map[string][]byte{}, s: 4, r: 2, g: 3, volLoss: "none"}
+	sc.names = []string{"limit.bin"}
+	d := make([]byte, 32768*4)
+	rng.Read(d)
+	sc.prot["limit.bin"] = d
+	sc.desc = "one file of exactly 32768 slices"
+	sc.damage = func(rng *rand.Rand, sc *scenario, disk map[string][]byte) []string {
+		x := append([]byte{}, disk["limit.bin"]...)
+		x[4*20000+1] ^= 0x10
+		disk["limit.bin"] = x
+		return []string{"flip a bit in slice 20000"}
+	}
+	return sc
+}
+
 func runP2Big(args []string) error {
 	c := newCommon("p2big")
 	count := c.fs.Int("n", 0, "number of scenarios (0 = tier default)")
@@ -397,6 +415,8 @@ func runP2Big(args []string) error {
 			sc = swapScenario(rng)
 		} else if idx == 9 {
 			sc = siblingScenario(rng)
+		} else if idx == 12 {
+			sc = limitScenario(rng)
 		} else {
 			sc = makeScenario(rng, idx, thorough)
 		}
